@@ -342,6 +342,13 @@ func runC01(r *Run) {
 		}
 		r.rtCase(v, p, g.threshold(len(p.Body)))
 	}
+	// metadata that fills the 65535-byte block exactly, or leaves one byte (v2): key "a" -> 32767 bytes (2+2+32767),
+	// key "b" -> 32760 / 32759 bytes
+	for _, vb := range []int{32760, 32759} {
+		p := &PK{Type: 1, Cmd: 9, Rid: 3, Timeout: 7, Codec: 1, Body: []byte("x"),
+			Vals: map[string]string{"a": strings.Repeat("p", 32767), "b": strings.Repeat("q", vb)}}
+		r.rtCase(2, p, 0)
+	}
 	// the 2^24 boundaries: 2^24-1 is the largest body, 2^24 must be refused (zeros, no gzip)
 	for v := 1; v <= 2; v++ {
 		for _, n := range []int{1<<24 - 1, 1 << 24} {
@@ -510,11 +517,67 @@ func runC10(r *Run) {
 			r.rtCase(v, p, thr)
 		}
 	}
-	// concurrency on the pools
+	// concurrency on the pools - after the error paths have been through them (a reader or writer handed back twice,
+	// or while still in use, only shows under concurrent use afterwards)
 	G := 8
 	per := 60
 	if r.thorough() {
 		G, per = 16, 400
+	}
+	{ // decompression only, precompressed per-worker payloads: the pooled readers are in use most of the time
+		W := 16
+		ins := make([][]byte, W)
+		cbs := make([][]byte, W)
+		for i := range ins {
+			ins[i] = g.body(150000 + g.Intn(100000))
+			cbs[i] = stdCompress(ins[i])
+		}
+		for i := 0; i < 12; i++ {
+			in := g.body(200 + g.Intn(3000))
+			cb := stdCompress(in)
+			bad := append([]byte(nil), cb...)
+			switch i % 4 {
+			case 0:
+				bad = bad[:len(bad)-1-g.Intn(8)] // truncated trailer
+			case 1:
+				bad[len(bad)-6] ^= 0x5a // CRC
+			case 2:
+				bad[len(bad)-2] ^= 0x11 // ISIZE
+			case 3:
+				bad = bad[:len(bad)/2] // cut inside the deflate stream
+			}
+			func() {
+				defer func() { recover() }()
+				repogzip.Decompress(bad)
+			}()
+		}
+		var wg0 sync.WaitGroup
+		bad0 := make(chan string, W)
+		for i := 0; i < W; i++ {
+			wg0.Add(1)
+			go func(i int) {
+				defer wg0.Done()
+				defer func() {
+					if e := recover(); e != nil {
+						bad0 <- fmt.Sprintf("panic under concurrent Decompress: %v", e)
+					}
+				}()
+				for k := 0; k < 40; k++ {
+					out, _, err := repogzip.Decompress(cbs[i])
+					if err != nil || !bytes.Equal(out, ins[i]) {
+						bad0 <- fmt.Sprintf("concurrent Decompress of a valid stream failed or returned other content (err=%v)", err)
+						return
+					}
+				}
+			}(i)
+		}
+		wg0.Wait()
+		close(bad0)
+		for b := range bad0 {
+			r.violate(Violation{What: b, Case: "16 goroutines x 40 Decompress of their own 150-250 KB stream, after 12 corrupt streams went through the pool"})
+			break
+		}
+		r.st.Dist["concurrent.decompress-only"] = W * 40
 	}
 	var wg sync.WaitGroup
 	bad := make(chan string, G)
@@ -523,8 +586,17 @@ func runC10(r *Run) {
 		gg := g.Fork()
 		go func() {
 			defer wg.Done()
+			defer func() {
+				if e := recover(); e != nil {
+					bad <- fmt.Sprintf("panic under concurrent use: %v", e)
+				}
+			}()
 			for i := 0; i < per; i++ {
-				in := gg.body(gg.Intn(5000))
+				n := gg.Intn(5000)
+				if i%4 == 0 {
+					n = 150000 + gg.Intn(100000) // long enough for two users of one pooled object to overlap
+				}
+				in := gg.body(n)
 				cb, err := repogzip.Compress(in)
 				if err != nil {
 					bad <- "Compress error under concurrency"
